@@ -105,6 +105,8 @@ type Runner struct {
 	Crash    *crashCtl // crash enumeration (nil outside the crash engine)
 	// BeforeIngest, if set, runs once right before the next DB.Ingest call (after the external tables were written)
 	BeforeIngest func()
+	Hook         *fsHook // set when the filesystem is a countFS with a hook
+	noMaint      bool    // suppress the configuration's periodic maintenance (calls issued inside another call)
 	// Logger replaces the default logger (whose Fatalf panics)
 	Logger pebble.Logger
 }
@@ -778,7 +780,7 @@ func (r *Runner) afterWrite() {
 		r.Crash.afterReturn()
 	}
 	n := r.Cfg.MaintEvery
-	if n == 0 || r.Fatal != nil {
+	if n == 0 || r.Fatal != nil || r.noMaint {
 		return
 	}
 	if r.Steps%n == 0 {
